@@ -4,6 +4,7 @@ CONSTANTS
   MaxR = 1
   NN0 = 2
   T100 = 1000
+  Ex0 = {}
   Facts = {"A", "B"}
   MaxOps = 2
   StartAll = TRUE
